@@ -107,11 +107,11 @@ func init() {
 		oldInner := Select(a, sv.Arr)
 		na := e.ctx.Fresh("sorted", so.Val)
 		i, j := T("i!q", SInt), T("j!q", SInt)
-		at := func(arr Term, k Term) Term { return Select(arr, Add(sv.Off, k)) }
+		at := func(arr Term, k Term) Term { return Select(arr, IX(sv.Off, k)) }
 		// Less of the element type: floats and integers use <
 		le := func(x, y Term) Term {
 			if leaf.K == KF64 {
-				return Not(app(SBool, "fp.lt", y, x))
+				return Not(app(SBool, "f64.lt", y, x))
 			}
 			return Le(x, y)
 		}
@@ -354,7 +354,7 @@ func init() {
 	}
 	builtinSpecs["time.Now"] = func(e *Engine, st *State, fn *ssa.Function, args []Value, pos token.Pos) []*State {
 		t := e.ctx.Fresh("now", SInt)
-		e.eventNamed(st, "time.Now", []Term{t})
+		e.eventRes(st, "time.Now", nil, []Term{t})
 		return ret(st, t)
 	}
 	builtinSpecs["(time.Time).Sub"] = func(e *Engine, st *State, fn *ssa.Function, args []Value, pos token.Pos) []*State {
@@ -644,4 +644,37 @@ func (e *Engine) scanGlobal(g *ssa.Global) globalInitInfo {
 		}
 	}
 	return info
+}
+
+func init() {
+	// ---- net.UDPConn: one Write call = one datagram with exactly the given bytes; may fail ----
+	builtinSpecs["(*net.conn).Write"] = func(e *Engine, st *State, fn *ssa.Function, args []Value, pos token.Pos) []*State {
+		c := e.ptrArg(args[0])
+		b := args[1].(SliceV)
+		content := e.bytesToStr(st, b)
+		n := e.ctx.Fresh("udp_n", SInt)
+		st.assume(And(Le(IntLit(0), n), Le(n, b.Len)))
+		errv := e.freshValue(st, "udp_err", types.Universe.Lookup("error").Type()).(IfaceV)
+		e.eventRes(st, "conn.Write", []Term{c.Ref, content}, []Term{n, errv.Tag, errv.Pay})
+		return ret(st, TupleV{n, errv})
+	}
+	builtinSpecs["(*net.conn).Close"] = func(e *Engine, st *State, fn *ssa.Function, args []Value, pos token.Pos) []*State {
+		c := e.ptrArg(args[0])
+		errv := e.freshValue(st, "udp_err", types.Universe.Lookup("error").Type()).(IfaceV)
+		e.eventRes(st, "conn.Close", []Term{c.Ref}, []Term{errv.Tag, errv.Pay})
+		return ret(st, errv)
+	}
+	builtinSpecs["(*net.conn).Read"] = func(e *Engine, st *State, fn *ssa.Function, args []Value, pos token.Pos) []*State {
+		c := e.ptrArg(args[0])
+		b := args[1].(SliceV)
+		n := e.ctx.Fresh("udp_n", SInt)
+		st.assume(And(Le(IntLit(0), n), Le(n, b.Len)))
+		errv := e.freshValue(st, "udp_err", types.Universe.Lookup("error").Type()).(IfaceV)
+		// the buffer content becomes arbitrary
+		key := typeKey(arrRootT(b.Elem)) + "[]"
+		so := arrSortFor(1, SInt)
+		st.havocHeapSlot(KeySort{key, so}, b.Arr)
+		e.eventRes(st, "conn.Read", []Term{c.Ref}, []Term{n, errv.Tag, errv.Pay})
+		return ret(st, TupleV{n, errv})
+	}
 }
